@@ -15,6 +15,8 @@ UNB = 2147483647
 
 def type_text(t):
     """how an attribute's type is named by the dictionary: named types by name, simple types in lower case, aggregates as EXPRESS text"""
+    if isinstance(t, smodel.Simple):
+        return t.name.lower()       # an attribute typed REAL (6) shares the descriptor of REAL: the precision of a bare built-in type is not judged
     return t.express().lower() if not isinstance(t, smodel.Named) else t.name.lower()
 
 
@@ -55,9 +57,16 @@ def expected(fam):
                  'optl': 1 if b.optional else 0, 'elem': type_text(b.elem)}
         elif isinstance(b, smodel.Simple):
             d = {'ref': b.name.lower(), 'fund': PRIM[b.name]}
+            if b.width is not None:
+                d['desc'] = b.express()         # the width / FIXED of a defined type's underlying type is part of its description
         else:
             d = {'ref': b.name.lower()}
             r = fam.resolve(b)
+            if r[0] == 'aggr':
+                # a renamed aggregate type: the structure of the aggregate it renames
+                ag = r[1]
+                d.update({'aggr': ag.kind.lower(), 'b1': ag.lo if ag.lo is not None else 0, 'b2': ag.hi if ag.hi is not None else UNB, 'uniq': 1 if ag.unique else 0,
+                          'optl': 1 if ag.optional else 0, 'elem': type_text(ag.elem), 'renamed': True})
             if r[0] == 'enum':
                 d['enum'] = [x.lower() for x in r[1]]
             if r[0] == 'select':
@@ -168,7 +177,9 @@ def compare(fam, ee, te, eg, tg, inst):
             out.append(('enumeration-items/%s' % ('order' if sorted(g.get('enum') or []) == sorted(t['enum']) else 'set'), 'type %s: items %s, declared %s' % (n, g.get('enum'), t['enum'])))
         if 'select' in t and g.get('select') != t['select']:
             out.append(('select-members', 'type %s: members %s, declared %s' % (n, g.get('select'), t['select'])))
-        if 'ref' in t and g.get('ref') != t['ref'] and 'aggr' not in t:
+        if 'desc' in t and ' '.join(g.get('desc', '').upper().split()) != ' '.join(t['desc'].upper().split()):
+            out.append(('type-description/width', 'type %s: described as %r, declared %r' % (n, g.get('desc'), t['desc'])))
+        if 'ref' in t and g.get('ref') != t['ref'] and ('aggr' not in t or t.get('renamed')):
             out.append(('underlying-type', 'type %s: underlying %s, declared %s' % (n, g.get('ref'), t['ref'])))
         if 'aggr' in t:
             if g.get('aggr') != t['aggr']:
